@@ -485,6 +485,18 @@ func (p *Packer) Unpack(r io.Reader, dst string) error {
 			continue
 		}
 
+		// A directory or file entry replaces a symlink that an earlier entry
+		// left at the same path: it is never created or written through that
+		// link (the parent directories were checked by NewUnpackInfo, the last
+		// path element is checked here).
+		if info.IsDirectory() || info.IsRegular() {
+			if fi, err := os.Lstat(info.Path); err == nil && fi.Mode()&os.ModeSymlink != 0 {
+				if err := os.Remove(info.Path); err != nil {
+					return fmt.Errorf("failed to replace symlink %q: %w", info.Path, err)
+				}
+			}
+		}
+
 		if info.IsDirectory() {
 			// Create the directory itself: nothing else does for one that has
 			// no entries below it.
